@@ -114,6 +114,7 @@ let eval (props : string list) case impl =
      C09  the connection was closed or left unserved where it had to stay open, or served after a close; a wrong close token
      C05  400 given / withheld wrongly, a wrong body presented, or the place where the next request begins lost
      C06  a handler was presented with a body that is not the payload
+     C20  a head that is not complete within the limit was buffered and served instead of refused
    and C03 when the segmentations of one byte string do not all give the same transcript. *)
 let eval_pipe case impl =
   let scripts = split_on '#' case and ts = split_on '#' impl in
@@ -145,6 +146,8 @@ let eval_pipe case impl =
            let sx = field x 0 and sy = field y 0 in
            if sx <> sy then begin
              if sx = "431" || sy = "431" then (add "C10"; add "C09");
+             (* a head longer than the limit was buffered and served *)
+             if sx = "431" && sy <> "400" then add "C20";
              if sx = "400" || sy = "400" then add "C05";
              if sx <> "431" && sx <> "400" && maxh < 4096 then add "C10"
            end else begin
